@@ -166,7 +166,9 @@ func rulePCNew(c *Ctx) {
 		key := ct.Name + "/New~Read"
 		pos := c.P.pos(ct.M["New"].Pos())
 		good := func(w string) { c.OK(key, pos, fmt.Sprintf("New:%s Read:%s — %s", n, r, w)) }
-		bad := func(w string) { c.Bad(key, pos, fmt.Sprintf("New returns %s but Read uses its pointer as %s: %s", n, r, w)) }
+		bad := func(w string) {
+			c.Bad(key, pos, fmt.Sprintf("New returns %s but Read uses its pointer as %s: %s", n, r, w))
+		}
 		switch {
 		case r.Kind == CUnknown || r.Kind == CConflict || n.Kind == CUnknown || n.Kind == CConflict:
 			c.Unk(key, pos, fmt.Sprintf("contract not understood: New:%s Read:%s", n, r))
@@ -1009,4 +1011,129 @@ func recordBuilderGroup(P *Program, root *ssa.Function) []*ssa.Function {
 	}
 	add(root, 0)
 	return out
+}
+
+// ---------- BT-SUBNIL
+
+// ruleBTSubNil: a codec that delegates to a sub-codec held in an interface
+// field calls its methods unconditionally when decoding. Wherever a module
+// function lets such a codec literal out (as an interface value or a result),
+// the field must be definitely assigned a non-nil codec: a forward
+// must-analysis over the function's blocks.
+func ruleBTSubNil(c *Ctx) {
+	c.Rule("BT-SUBNIL", "wherever a codec literal with a sub-codec field leaves the function that builds it, that field is definitely assigned a non-nil codec on every path: decoding calls it without a nil check", 4)
+	P := c.P
+	mayBeNil := func(v ssa.Value) bool {
+		for _, s := range phiSources(v) {
+			if isNilConst(s) {
+				return true
+			}
+		}
+		return false
+	}
+	for _, fn := range P.ModuleFuncs() {
+		if fn.Blocks == nil {
+			continue
+		}
+		for _, b0 := range fn.Blocks {
+			for _, in0 := range b0.Instrs {
+				a, ok := in0.(*ssa.Alloc)
+				if !ok {
+					continue
+				}
+				T := a.Type().(*types.Pointer).Elem()
+				st, ok := T.Underlying().(*types.Struct)
+				if !ok || !P.isModuleType(T) {
+					continue
+				}
+				// escape points: the literal (or its value) becomes an interface value or a result
+				var outs []ssa.Instruction
+				for _, r := range referrersOf(a) {
+					switch x := r.(type) {
+					case *ssa.MakeInterface, *ssa.Return:
+						outs = append(outs, r)
+					case *ssa.UnOp:
+						if x.Op == token.MUL {
+							for _, rr := range referrersOf(x) {
+								switch rr.(type) {
+								case *ssa.MakeInterface, *ssa.Return:
+									outs = append(outs, rr)
+								}
+							}
+						}
+					}
+				}
+				if len(outs) == 0 {
+					continue
+				}
+				for i := 0; i < st.NumFields(); i++ {
+					f := st.Field(i)
+					if !isCodecIface(P, f.Type()) {
+						continue
+					}
+					// blocks that assign a non-nil value to the field
+					assigns := map[*ssa.BasicBlock]bool{}
+					for _, r := range referrersOf(a) {
+						fa, ok := r.(*ssa.FieldAddr)
+						if !ok || fa.Field != i {
+							continue
+						}
+						for _, rr := range referrersOf(fa) {
+							if s, ok := rr.(*ssa.Store); ok && s.Addr == ssa.Value(fa) && !mayBeNil(s.Val) {
+								assigns[s.Block()] = true
+							}
+						}
+					}
+					// whole-struct stores (*a = other literal) are not understood: skip the literal
+					whole := false
+					for _, r := range referrersOf(a) {
+						if s, ok := r.(*ssa.Store); ok && s.Addr == ssa.Value(a) {
+							whole = true
+						}
+					}
+					key := fmt.Sprintf("%s/literal[%s]/%s", fnKey(fn), typeKey(T), f.Name())
+					if whole {
+						c.Unk(key, P.pos(a.Pos()), "the literal is assigned as a whole: field-wise definite assignment does not apply")
+						continue
+					}
+					out := map[*ssa.BasicBlock]bool{}
+					for _, b := range fn.Blocks {
+						out[b] = true
+					}
+					inOf := func(b *ssa.BasicBlock) bool {
+						if b == fn.Blocks[0] || len(b.Preds) == 0 {
+							return false
+						}
+						for _, p := range b.Preds {
+							if !out[p] {
+								return false
+							}
+						}
+						return true
+					}
+					for changed := true; changed; {
+						changed = false
+						for _, b := range fn.Blocks {
+							v := inOf(b) || assigns[b]
+							if v != out[b] {
+								out[b] = v
+								changed = true
+							}
+						}
+					}
+					var bad ssa.Instruction
+					for _, o := range outs {
+						if !out[o.Block()] {
+							bad = o
+						}
+					}
+					if bad != nil {
+						c.Bad(key, P.pos(a.Pos()), fmt.Sprintf("the sub-codec field %s of this %s is not assigned a non-nil codec on every path before the literal leaves %s: decoding a value through it is a nil-pointer panic", f.Name(), typeKey(T), fn.Name()))
+					} else {
+						c.OK(key, P.pos(a.Pos()), fmt.Sprintf("definitely assigned a non-nil codec before each of the %d places the literal leaves the function", len(outs)))
+					}
+				}
+			}
+		}
+	}
 }
